@@ -245,6 +245,21 @@ func systematicPkgCases(id *int, profile, scratch string, rng *rand.Rand, tier s
 			c.Version, c.Schema, c.Prerelease, c.Metadata, c.Release = v.ver, v.schema, v.pre, v.meta, v.rel
 			add(c, smallTree(), "version-edges")
 		}
+		// custom control fields that name a field the packager writes itself (must not show up a second time), several custom
+		// fields at once; an explicit epoch of zero together with a prerelease; a package without a build host after one with
+		{
+			c := baseCfg("reservedfields")
+			c.IpkFields = []KV2{{"Architecture", "aarch64_cortex-a53"}, {"Installed-Size", "999"}, {"Version", "9.9.9"}, {"Source", "feeds/x"}, {"Bugs", "b"}, {"Zeta", "z"}}
+			c.DebFields = []KV2{{"Bugs", "https://bugs.example/x"}, {"Built-Using", "golang"}, {"Zeta", "z"}}
+			c.IpkEss, c.IpkAuto = true, true
+			add(c, smallTree(), "reserved-fields")
+			c2 := baseCfg("epochzero")
+			c2.Version, c2.Epoch, c2.Release = "1.2.3-beta1", "0", "2"
+			add(c2, smallTree(), "epoch-zero")
+			c3 := baseCfg("nohostpkg")
+			c3.RpmBuildHost = "another-build-host.example"
+			add(c3, smallTree(), "buildhost-set")
+		}
 		// names archlinux does not take (a character outside [A-Za-z0-9._+-], a leading hyphen or dot): archlinux refuses to
 		// build, the other formats use the name as it is
 		for _, nm := range []string{"openssl@1.1", "has~tilde", "-lead", ".dot", "ok.name+x_1"} {
@@ -341,6 +356,25 @@ func systematicPkgCases(id *int, profile, scratch string, rng *rand.Rand, tier s
 			add(c, nodes, "rewritten-scripts")
 			out[len(out)-1].Rescript = true
 		}
+		// an essential ipk has its removal scripts like any other; a script path that goes up out of a SYMLINKED directory
+		// (the operating system resolves it, lexical cleaning would name another file)
+		{
+			c := baseCfg("essentialpkg")
+			nodes := append(smallTree(), addScripts(rng, c, commonSlots)...)
+			c.IpkEss = true
+			c.Entries = []Entry{plain}
+			add(c, nodes, "essential-ipk")
+			c2 := baseCfg("linkedscripts")
+			nodes2 := append(smallTree(), addScripts(rng, c2, []string{"postinstall", "preremove"})...)
+			real, decoy := []byte("#!/bin/sh\necho the configured script\n"), []byte("#!/bin/sh\necho NOT the configured script\n")
+			nodes2 = append(nodes2, Node{P: "scripts/shared", Kind: "dir", Mode: 0o755, Mt: 1450000000}, Node{P: "scripts/shared/hooks", Kind: "dir", Mode: 0o755, Mt: 1450000000},
+				Node{P: "scripts/shared/post.sh", Kind: "file", Mode: 0o755, Mt: 1440005000, Size: len(real), data: real, Cid: cidOf(real)},
+				Node{P: "scripts/post.sh", Kind: "file", Mode: 0o755, Mt: 1440006000, Size: len(decoy), data: decoy, Cid: cidOf(decoy)},
+				Node{P: "scripts/hooks", Kind: "link", Link: "shared/hooks", Tk: "dir"})
+			c2.Scripts["postinstall"], c2.ScriptCid["postinstall"], c2.ScriptMt["postinstall"] = "scripts/hooks/../post.sh", cidOf(real), 1440005000
+			c2.Entries = []Entry{plain}
+			add(c2, nodes2, "script-through-symlinked-dir")
+		}
 		// one script file used for several slots (a dispatching maintainer script)
 		for _, slots := range [][]string{{"preinstall", "preremove"}, {"postinstall", "postremove", "preinstall"}, commonSlots} {
 			c := baseCfg("sharedscript")
@@ -427,7 +461,9 @@ func systematicPkgCases(id *int, profile, scratch string, rng *rand.Rand, tier s
 			c := baseCfg("noglobpkg")
 			c.NoGlob = true
 			c.Entries = []Entry{plain, {Type: "file", Src: "src/app.conf", Dst: "/etc/noglobpkg/"}, {Type: "config", Src: "src/extra.conf", Dst: "/etc/noglobpkg/"},
-				{Type: "file", Src: "src/sub", Dst: "/usr/share/noglobpkg/"}, {Type: "file", Src: "src/empty", Dst: "/usr/share/noglobpkg/renamed"}}
+				{Type: "file", Src: "src/sub", Dst: "/usr/share/noglobpkg/"}, {Type: "file", Src: "src/empty", Dst: "/usr/share/noglobpkg/renamed"},
+				{Type: "config", Src: "src/app.conf", Dst: "/etc/noglobpkg/renamed.conf"}, {Type: "config|noreplace", Src: "src/extra.conf", Dst: "/etc/noglobpkg/keep.conf"},
+				{Type: "config|missingok", Src: "src/app.conf", Dst: "/etc/noglobpkg/optional.conf"}}
 			add(c, smallTree(), "noglob-into-dir")
 		}
 		// override blocks for every format AND entries addressed to single packagers: every format built from the one parsed
@@ -475,6 +511,45 @@ func systematicPkgCases(id *int, profile, scratch string, rng *rand.Rand, tier s
 			c := baseCfg("beneathpkg")
 			c.Entries = []Entry{plain, first, {Type: "file", Src: "src/app.conf", Dst: "/opt/demo/current/conf/app.conf"}, {Type: "dir", Dst: "/opt/demo/current/data"}}
 			add(c, smallTree(), "beneath-non-directory")
+		}
+		// a tree / a directory at the root itself (a root file system overlay)
+		for _, e := range [][]Entry{{{Type: "tree", Src: "src/sub", Dst: "/"}}, {{Type: "dir", Dst: "/", Fi: Fi{Mode: 0o755}, HasFi: true}, {Type: "file", Src: "src/bin", Dst: "/tool"}}} {
+			c := baseCfg("rootfspkg")
+			c.Entries = e
+			add(c, smallTree(), "root-overlay")
+		}
+		// glob matches in sibling directories one of whose names is a prefix of the other's
+		{
+			mkf := func(p, body string) Node {
+				b := []byte(body)
+				return Node{P: p, Kind: "file", Mode: 0o644, Mt: 1500000000, Size: len(b), data: b, Cid: cidOf(b)}
+			}
+			nodes := append(smallTree(), Node{P: "plugins", Kind: "dir", Mode: 0o755, Mt: 1500000000}, Node{P: "plugins/core", Kind: "dir", Mode: 0o755, Mt: 1500000000},
+				Node{P: "plugins/core-extras", Kind: "dir", Mode: 0o755, Mt: 1500000000}, mkf("plugins/core/init.lua", "core"), mkf("plugins/core-extras/init.lua", "extras"),
+				mkf("plugins/core/x.lua", "x"))
+			for _, d := range []string{"/usr/share/sibpkg/plugins", "/usr/share/sibpkg/plugins/"} {
+				c := baseCfg("sibpkg")
+				c.Entries = []Entry{plain, {Type: "file", Src: "plugins/*/init.lua", Dst: d}}
+				add(c, nodes, "sibling-prefix-dirs")
+			}
+		}
+		// one file declared once per packager, with another type each time; config destinations containing blanks; an empty
+		// file that sorts after a non-empty one
+		{
+			c := baseCfg("perpkgr")
+			c.Entries = []Entry{plain, {Type: "config", Src: "src/app.conf", Dst: "/etc/perpkgr/app.conf", Tag: "deb"}, {Type: "config|noreplace", Src: "src/app.conf", Dst: "/etc/perpkgr/app.conf", Tag: "rpm"},
+				{Type: "file", Src: "src/app.conf", Dst: "/etc/perpkgr/app.conf", Tag: "apk"}, {Type: "config|missingok", Src: "src/app.conf", Dst: "/etc/perpkgr/app.conf", Tag: "ipk"},
+				{Type: "config", Src: "src/app.conf", Dst: "/etc/perpkgr/app.conf", Tag: "archlinux"}}
+			add(c, smallTree(), "per-packager-types")
+			c2 := baseCfg("blankconf")
+			c2.NoGlob = true
+			c2.Entries = []Entry{plain, {Type: "config", Src: "src/app.conf", Dst: "/etc/blank conf/app conf.conf"}, {Type: "config|noreplace", Src: "src/extra.conf", Dst: "/etc/blank conf/second one"},
+				{Type: "config", Src: "src/app.conf", Dst: "/etc/blankconf/plain.conf"}, {Type: "file", Src: "src/bin", Dst: "/usr/share/blank conf/a file"}}
+			add(c2, smallTree(), "blank-in-config-path")
+			c3 := baseCfg("emptylast")
+			c3.Entries = []Entry{{Type: "file", Src: "src/bin", Dst: "/usr/share/emptylast/a-nonempty"}, {Type: "file", Src: "src/empty", Dst: "/usr/share/emptylast/z-empty"},
+				{Type: "file", Src: "src/empty", Dst: "/usr/share/emptylast/m-empty"}, {Type: "config", Src: "src/app.conf", Dst: "/usr/share/emptylast/n.conf"}}
+			add(c3, smallTree(), "empty-after-nonempty")
 		}
 		// a directory as the source of a file entry: with a destination that ends in a slash every file found below it goes
 		// directly into that directory; without the slash the structure is kept
